@@ -2,6 +2,7 @@ package main
 
 import (
 	"fmt"
+	"go/constant"
 	"go/types"
 	"sort"
 	"strings"
@@ -18,8 +19,9 @@ func init() {
 				"C03.memo (each memo cache is filled only by its wrapper with the wrapped function's result for the same arguments, keyed by ALL parameters, and by InsertFrameEvent / Reset), " +
 				"C03.mappick (no consensus function lets a value of one iteration of a map range escape through an early exit: counting and order-independent predicates only), C03.timestamp (the frame timestamp is computed from the famous witnesses of the decided round, not from whatever witnesses are registered at the time; shared with C18.prov), C03.passstate (non-interference: nothing reachable from InsertEvent reads what the consensus passes write — recorded rounds, RoundInfo, memoised round/witness —, since whatever insertion writes into the DAG summary would then depend on how many passes ran between insertions; on the current tree updateAncestorFirstDescendant does: known finding F-C03-2, differential reproduction in /verif/findings/F-C03-2), " +
 				"C03.memotime (a necessary condition of batching-independence: the memoised round / witness predicates — whose value depends on which witnesses DivideRounds has registered so far — are never evaluated on the insertion path, only by the consensus passes), C03.canon (frame and round encoders are canonical). " +
+				"C03.recency (the one structural fact behind cache-size independence: a read refreshes an LRU entry — LRU.Get moves every hit to the front and nobody takes a cached value out through Peek — so values that are only read, like the last consensus events of a quiet validator, are not evicted by newer writes). " +
 				"NOT decided: independence from cache size, store type and batching of consensus passes (a quantification over configurations of a dynamic process; LRU-eviction dependence of GetRound is a runtime question)."},
-		Rules: []ruleFunc{c03local, c03order, c03memo, c03memotime, c03passstate, func(p *Prog, r *Report) { timestampRule(p, r, "C03.timestamp") }, func(p *Prog, r *Report) { mapPickRule(p, r, "C03.mappick", consensusFuncs) }, func(p *Prog, r *Report) { r.Rule("C03.canon", 2, "canonical encoders"); canonRule(p, r, "C03.canon") }},
+		Rules: []ruleFunc{c03local, c03order, c03memo, c03memotime, c03passstate, func(p *Prog, r *Report) { timestampRule(p, r, "C03.timestamp") }, func(p *Prog, r *Report) { mapPickRule(p, r, "C03.mappick", consensusFuncs) }, func(p *Prog, r *Report) { r.Rule("C03.canon", 2, "canonical encoders"); canonRule(p, r, "C03.canon") }, func(p *Prog, r *Report) { recencyRule(p, r, "C03.recency") }},
 	})
 	register(&propDef{
 		ID: "C13", NeedCG: true,
@@ -27,8 +29,9 @@ func init() {
 			Explanation: "STRUCTURAL CLAUSES ONLY. Decided: C13.frames (frames are view-independent: the frame-building slice of C03.local / C03.order / C03.canon; roots of silent creators come from LastConsensusEventFrom, never LastEventFrom; ROOT_DEPTH is a constant bounding createRoot's loop), " +
 				"C13.reset (Hashgraph.Reset inserts every frame.SortedFrameEvents() element through InsertFrameEvent — which seeds round / witness / Lamport caches from the frame's values — before storing the block; Node.fastForward re-derives the anchor block's pending membership changes after a successful core reset), " +
 				"C13.resetfields (InmemStore.Reset and Hashgraph.Reset re-initialise every listed piece of state: nothing of the pre-reset chain survives), C13.latest (validators after the reset are the latest recorded set), C13.anchorreceipts (the accepted receipts of the anchor block are applied after the reset: processAcceptedInternalTransactions has no early success exit that depends on state the reset just wrote; shared with C10.everyreceipt), C13.resetorder (Store.Reset replays frame.PeerSets — a map — in arbitrary order, so PeerSetCache.Set must be insensitive to the order of calls: a peer's first round is lowered when an earlier round arrives later, the round list is re-sorted). " +
+				"C13.framedecided (Hashgraph.GetFrame stores what it computes, so it is called only for final rounds; shared with C04.framedecided). " +
 				"NOT decided — and said so: that a reset node DELIVERS THE SAME BLOCKS afterwards; that depends on which events arrive after the reset (an event whose other-parent lies below the frame cannot be inserted; the documentation concedes the protocol is not watertight)."},
-		Rules: []ruleFunc{c13frames, c13reset, c13resetfields, func(p *Prog, r *Report) { latestRule(p, r, "C13.latest") }, func(p *Prog, r *Report) { firstRoundRule(p, r, "C13.resetorder") }, func(p *Prog, r *Report) { everyReceiptRule(p, r, "C13.anchorreceipts") }, func(p *Prog, r *Report) { sharedSliceRule(p, r, "C13.shared") }},
+		Rules: []ruleFunc{c13frames, c13reset, c13resetfields, func(p *Prog, r *Report) { latestRule(p, r, "C13.latest") }, func(p *Prog, r *Report) { firstRoundRule(p, r, "C13.resetorder") }, func(p *Prog, r *Report) { everyReceiptRule(p, r, "C13.anchorreceipts") }, func(p *Prog, r *Report) { sharedSliceRule(p, r, "C13.shared") }, func(p *Prog, r *Report) { frameDecidedRule(p, r, "C13.framedecided") }},
 	})
 }
 
@@ -918,4 +921,94 @@ func mapPickRule(p *Prog, r *Report, rule string, roots [][3]string) {
 		}
 	}
 	r.Note("%s: %d map-range loops examined in %d consensus functions", rule, nLoops, len(fs))
+}
+
+/* ---------- C03.recency ---------- */
+
+// recencyRule: the in-memory store is an LRU over what is READ as well as over what is written.
+// Consensus reads very old values for as long as they matter (the last consensus event of a quiet
+// validator is read at every GetFrame); they stay cached only because a read refreshes them.
+//  - LRU.Get moves the entry to the front whenever it reports a hit;
+//  - no caller takes a cached VALUE out through Peek (which does not refresh).
+func recencyRule(p *Prog, r *Report, rule string) {
+	r.Rule(rule, 2, "LRU.Get refreshes the entry on every hit; no module code obtains a cached value through LRU.Peek")
+	get := p.Func(COMM, "LRU", "Get")
+	if get == nil || get.Signature.Results().Len() != 2 {
+		r.Anchor(rule, "common.(*LRU).Get")
+		return
+	}
+	var mtf []ssa.Instruction
+	for _, b := range get.Blocks {
+		for _, in := range b.Instrs {
+			if c, ok := in.(*ssa.Call); ok {
+				if f := calleeFunc(c.Common()); f != nil && f.Pkg() != nil && f.Pkg().Path() == "container/list" && (f.Name() == "MoveToFront") {
+					mtf = append(mtf, in)
+				}
+			}
+		}
+	}
+	okGet, where, n := true, p.pos(get.Pos()), 0
+	for _, b := range get.Blocks {
+		if len(b.Instrs) == 0 || (b.Index != 0 && len(b.Preds) == 0) {
+			continue
+		}
+		ret, isRet := b.Instrs[len(b.Instrs)-1].(*ssa.Return)
+		if !isRet {
+			continue
+		}
+		for _, rp := range retPointsOf(ret, 1) {
+			if c, isC := unwrap(rp.val).(*ssa.Const); isC && c.Value != nil && c.Value.Kind() == constant.Bool && !constant.BoolVal(c.Value) {
+				continue // a miss
+			}
+			n++
+			refreshed := false
+			for _, m := range mtf {
+				if rp.pred != nil {
+					if m.Block() == rp.pred || dominatesBlock(m.Block(), rp.pred) {
+						refreshed = true
+					}
+				} else if dominates(m, ret) {
+					refreshed = true
+				}
+			}
+			if !refreshed {
+				// a hit flag that is the lookup's own: false on this path?
+				qMiss := func(l Lit) bool {
+					_, present, ok := lookupLit(l)
+					return ok && !present
+				}
+				if g, _ := p.holdsAtRet(rp, []Pred{qMiss}, all(1)); g {
+					continue
+				}
+				okGet = false
+				where = p.ipos(ret)
+			}
+		}
+	}
+	r.Check(okGet && n > 0, rule, "LRU.Get:hit-refreshes", where, fnName(get), "every hit moves the entry to the front",
+		"LRU.Get can report a hit without moving the entry to the front: values that are only read (the last consensus events of a quiet validator, needed for the Roots of every frame) are evicted after cacheSize newer writes and an in-memory node stalls where a node with a larger cache or a database goes on")
+	okPeek, whereP := true, "-"
+	for _, fn := range p.Mod {
+		for _, b := range fn.Blocks {
+			for _, in := range b.Instrs {
+				c, ok := in.(*ssa.Call)
+				if !ok {
+					continue
+				}
+				f := calleeFunc(c.Common())
+				if f == nil || f.Name() != "Peek" || recvNamed(f) != "LRU" {
+					continue
+				}
+				if refs := c.Referrers(); refs != nil {
+					for _, rf := range *refs {
+						if ex, isEx := rf.(*ssa.Extract); isEx && ex.Index == 0 && ex.Referrers() != nil && len(*ex.Referrers()) > 0 {
+							okPeek = false
+							whereP = p.ipos(c)
+						}
+					}
+				}
+			}
+		}
+	}
+	r.Check(okPeek, rule, "LRU.Peek:no-value-taken", whereP, "", "no cached value is taken out through Peek", "a cached value is handed out through LRU.Peek, which does not refresh the entry: what is read stops counting as recently used (see LRU.Get:hit-refreshes)")
 }
